@@ -815,6 +815,26 @@ func (w *walker) storeTo(e ast.Expr, kind, detail string, n ast.Node) {
 			return
 		case *ast.SelectorExpr:
 			if f := w.fieldOf(x); f != nil {
+				if outer && (kind == "KAssign" || kind == "KIncDec") {
+					// (append(v.f, ..), copy(v.f, ..), delete(v.f, ..), &v.f and pointer-receiver method calls on
+					// v.f can reach memory the copy shares with its original and are still recorded)
+					// v.f = e where v is a local variable (or by-value parameter, or the variable bound by a
+					// type switch) of struct type, not captured by a closure: the store changes the local copy
+					// only, no other goroutine or runtime can see it.  Stores below the field (v.f[i], *v.f,
+					// v.f.g through a pointer) have outer == false and are still recorded.
+					if id, ok := unparen(x.X).(*ast.Ident); ok && w.pkgVar(id) == nil {
+						if v, ok := w.p.info.Uses[id].(*types.Var); ok && !v.IsField() && v.Parent() != nil && v.Pkg() != nil && v.Parent() != v.Pkg().Scope() {
+							captured := false
+							if len(w.lits) > 0 {
+								in := w.lits[len(w.lits)-1]
+								captured = !(v.Pos() >= in.Pos() && v.Pos() < in.End())
+							}
+							if _, isStruct := v.Type().Underlying().(*types.Struct); isStruct && !captured {
+								return
+							}
+						}
+					}
+				}
 				k := kind
 				if !outer {
 					k = "KElem"
